@@ -2,7 +2,7 @@
     the family number; the verdict says whether the implementation's observed
     behaviour equals the model's. *)
 From Coq Require Import List ZArith Bool.
-From FF Require Import Sx Dispatch TaskTree StoreModel StoreCheck PreCheck EngineMon.
+From FF Require Import Sx Dispatch TaskTree StoreModel StoreCheck PreCheck EngineMon TaskRun ShareData.
 Import ListNotations.
 Local Open Scope Z_scope.
 
@@ -12,6 +12,7 @@ Definition run_monitor (family : Z) (c : sx) : option bool :=
   | 20 => monitor_store_trace c
   | 21 => monitor_worker_key_case c
   | 40 => monitor_precheck c
+  | 41 => monitor_sharedata c
   | _ => if (100 <? family) && (family <? 200) then monitor_journal (family - 100) c else None
   end.
 
@@ -29,5 +30,8 @@ Definition run_case (family : Z) (c : sx) : verdict :=
   | 21 => check_worker_key_case c
   | 22 => check_flake_case c
   | 40 => check_precheck c
-  | _ => if (100 <? family) && (family <? 200) then check_journal_store c else BadCase 0
+  | 41 => check_sharedata c
+  | _ => if (100 <? family) && (family <? 200)
+         then match check_journal_store c with OkCase => check_runs c | v => v end
+         else BadCase 0
   end.
